@@ -22,3 +22,14 @@ nm_size_t verif_m_compute_offset(a3_t indices, sv_t strides) { return ix::comput
 using a3u_t = nmtools_array<unsigned int,3>;
 nm_size_t verif_f32_compute_offset(a3u_t indices, a3u_t strides) { return ix::compute_offset(indices,strides); }
 nm_size_t verif_m32_compute_offset(a3u_t indices, sv_t strides) { return ix::compute_offset(indices,strides); }
+
+// kind D (dynamic lists, nmtools_list = std::vector): the operands are built from / converted back to bounded vectors inside the
+// wrapper (std::vector's layout is not that of the C model, so it cannot be passed by value into the native replay)
+using lv_t = nmtools_list<nm_size_t>;
+static inline lv_t verif_to_lv(const sv_t& s) { lv_t v; v.resize(s.size()); for (nm_size_t i = 0; i < (nm_size_t)s.size(); i++) v[i] = s[i]; return v; }
+static inline sv_t verif_to_sv(const lv_t& v) { sv_t s; s.resize(v.size()); for (nm_size_t i = 0; i < (nm_size_t)v.size(); i++) s[i] = v[i]; return s; }
+nm_size_t verif_d_stride(sv_t shape, nm_size_t k) { return ix::stride(verif_to_lv(shape), k); }
+sv_t verif_d_compute_strides(sv_t shape) { return verif_to_sv(ix::compute_strides(verif_to_lv(shape))); }
+nm_size_t verif_d_compute_offset(sv_t indices, sv_t strides) { return ix::compute_offset(verif_to_lv(indices), verif_to_lv(strides)); }
+sv_t verif_d_compute_indices3(nm_size_t offset, sv_t shape, sv_t strides) { return verif_to_sv(ix::compute_indices(offset, verif_to_lv(shape), verif_to_lv(strides))); }
+nm_size_t verif_d_product(sv_t shape) { return ix::product(verif_to_lv(shape)); }
